@@ -187,6 +187,18 @@ fn build_entry(c: &Case) -> (Vec<u8>, Expected) {
                 spec.vertex[i] = specs(c.seed, 3000 + 100 * i as u64, v);
                 spec.index[i] = specs(c.seed, 4000 + 100 * i as u64, ix);
             }
+            // a third of the model entries store their sections in another physical order than the logical one, with
+            // unrelated bytes between them: every section is found through its own offset in the slot table
+            if (c.seed >> 8) % 3 == 0 {
+                let mut order: Vec<usize> = (0..8).collect();
+                let mut x = c.seed;
+                for i in (1..8).rev() {
+                    x = util::splitmix64(x);
+                    order.swap(i, (x % (i as u64 + 1)) as usize);
+                }
+                spec.phys_order = order;
+                spec.phys_gap_128 = ((c.seed >> 16) % 3) as usize;
+            }
             (sqpack::model_entry(&spec, c.extra_header_128 as usize), Expected { standard_or_texture: None, model: Some(ModelExpect { spec }) })
         }
     }
@@ -240,6 +252,30 @@ fn prop(c: &Case, ctx: &Ctx) -> PResult {
     dat.extend_from_slice(&entry);
     // trailing unrelated bytes
     dat.extend_from_slice(&content(c.seed, 78, 256, 0));
+    // a quarter of the direct reads happen on a handle with history: a damaged entry of the same dat file (its last
+    // block overwritten) was read first. Whatever that read returned, the intact entry must still come back whole.
+    let damaged_at: Option<u64> = if !c.via_index && (c.seed >> 20) % 4 == 0 {
+        while dat.len() % 128 != 0 {
+            dat.push(0);
+        }
+        let at = dat.len() as u64;
+        let b = |n: usize, mode: Mode, i: u64| BlockSpec { data: content(c.seed, 500 + i, n, 1), mode };
+        let mut damaged = match (c.seed >> 24) % 3 {
+            0 => sqpack::standard_entry(&[b(90, Mode::Raw, 0), b(90, Mode::Raw, 1), b(300, MODES[(c.seed >> 28) as usize % MODES.len()], 2)], 0, &[]),
+            1 => sqpack::texture_entry(&content(c.seed, 510, 80, 0), &[vec![b(200, Mode::Raw, 3), b(100, Mode::Raw, 4)], vec![b(50, Mode::Raw, 5)]], 0),
+            _ => sqpack::model_entry(&ModelEntrySpec { version: 0x0100_0005, stack: vec![b(136, Mode::Raw, 6)], runtime: vec![b(200, Mode::Raw, 7)], vertex: [vec![b(64, Mode::Raw, 8), b(64, Mode::Raw, 9)], vec![], vec![]], index: [vec![b(32, Mode::Raw, 10)], vec![], vec![]], decl_num: 1, material_num: 1, num_lods: 1, ..Default::default() }, 0),
+        };
+        let n = damaged.len();
+        match (c.seed >> 32) % 3 {
+            0 => damaged[n - 128..].fill(0xFF),
+            1 => damaged[n - 112..].fill(0xFF), // the last block's header stays, its payload is damaged
+            _ => damaged.truncate(n - 128),     // the dat file ends in front of the last block
+        }
+        dat.extend_from_slice(&damaged);
+        Some(at)
+    } else {
+        None
+    };
 
     let out: Option<Vec<u8>> = if c.via_index {
         let inst = Install::new("c02");
@@ -278,6 +314,9 @@ fn prop(c: &Case, ctx: &Ctx) -> PResult {
         std::fs::write(&p, &dat).unwrap();
         guard("SqPackData::read_from_offset", || {
             let mut d = physis::sqpack::SqPackData::from_existing(p.to_str().unwrap())?;
+            if let Some(at) = damaged_at {
+                let _ = d.read_from_offset(at);
+            }
             d.read_from_offset(offset)
         })?
     };
@@ -303,6 +342,14 @@ fn prop(c: &Case, ctx: &Ctx) -> PResult {
     ctx.classf(format!("blocks:{}", match nblocks { 0 => "0", 1 => "1", 2..=4 => "2-4", 5..=16 => "5-16", _ => ">16" }));
     ctx.classf(format!("size:{}", match out.len() { 0 => "0", 1..=1023 => "<1K", 1024..=65535 => "1K-64K", _ => ">=64K" }));
     ctx.classf(format!("dat{}", c.dat_id));
+    if damaged_at.is_some() {
+        ctx.class("route:after-a-failed-read-on-the-same-handle");
+    }
+    if let Entry::Model { .. } = &c.entry {
+        if (c.seed >> 8) % 3 == 0 {
+            ctx.class("model:sections-in-another-physical-order");
+        }
+    }
     if c.via_index {
         ctx.class("route:GameData::extract");
     } else {
